@@ -1,6 +1,7 @@
 import BigtoolsModel.FileOfBed
 import BigtoolsModel.FileRTBed
 import BigtoolsModel.BedCodec
+import BigtoolsModel.AtomsGen
 /-! # C02 — bigBed write/read round trip, including overlapping entries and autoSql
 
 Property theorems (statements copied from the lemma modules, proofs by those lemmas). -/
@@ -58,3 +59,16 @@ theorem C02_autosql_stored_verbatim (pre text tail : List Nat) (h : ∀ b ∈ te
   exact takeWhile_nul text tail h
 
 end CD
+
+namespace SectionCut
+
+/-- **The code's own section cut** (regenerated from `process_val` of both writers): a data section is handed over after the
+    chromosome's last item or when it holds `min items_per_slot 65535` items — so no section ever holds more items than its
+    16-bit count field can express (D22), whatever `items_per_slot` is. -/
+theorem C02_source_section_cut (isLast : Bool) (n ips : Nat) :
+    Gen.wig_cut isLast n ips = (isLast || decide (n ≥ min ips 65535)) ∧
+    Gen.bed_cut isLast n ips = (isLast || decide (n ≥ min ips 65535)) ∧
+    (n ≥ 65535 → Gen.wig_cut isLast n ips = true ∧ Gen.bed_cut isLast n ips = true) :=
+  ⟨(gen_cut isLast n ips).1, (gen_cut isLast n ips).2, gen_cut_fits_u16 isLast n ips⟩
+
+end SectionCut
